@@ -58,6 +58,31 @@ Theorem C18_failed_call_no_effect : forall dm st o st' e,
 Proof. exact failed_step_no_effect. Qed.
 Print Assumptions C18_failed_call_no_effect.
 
-(* Acquisition-device side: stated, NOT proved (only checked on the implementation by check_spec / py_spec). *)
-Definition C18_routing_invariant_dac_statement : Prop := forall dm h,
+(* Acquisition-device side of the routing invariant, same quantification and guard: every DAC holds exactly the
+   registered programs one of whose measurements is wired to one of its masks; for each such program exactly the wired
+   masks, each with the program's own windows of a measurement wired to it (Spec.dac_exact / dac_entry_ok); the
+   participation record names exactly those DACs; a DAC is only ever armed with a program whose windows it holds. *)
+Theorem C18_routing_invariant_dac : forall dm h,
   guard_C18_rewire dm init_state h = true -> routing_inv_dac (run dm init_state h).
+Proof. exact Proofs_dacinv.inv_dac_histories. Qed.
+Print Assumptions C18_routing_invariant_dac.
+
+Theorem C18_arm_dac : forall dm h name st',
+  guard_C18_rewire dm init_state h = true ->
+  arm_program (run dm init_state h) name = (st', None) ->
+  exists r, lookup name (regs st') = Some r
+            /\ forall d, dac_arm_post (mmap st') name (r_meas r) d (dac_of st' d) = true.
+Proof. exact arm_post_dac. Qed.
+Print Assumptions C18_arm_dac.
+
+Theorem C18_removed_dac : forall dm h name d,
+  guard_C18_rewire dm init_state h = true ->
+  dac_gone name (dac_of (fst (remove_program (run dm init_state h) name)) d) = true.
+Proof. exact removed_gone_dac. Qed.
+Print Assumptions C18_removed_dac.
+
+Theorem C18_cleared_dac : forall dm h d,
+  guard_C18_rewire dm init_state h = true ->
+  d_wins (dac_of (fst (clear_programs (run dm init_state h))) d) = [].
+Proof. exact cleared_empty_dac. Qed.
+Print Assumptions C18_cleared_dac.
